@@ -249,4 +249,92 @@ example : (run {} [.blk 1, .blk 1, .blk 1, .fin 1, .stepA 3, .reorg 2, .blk 2, .
 theorem C06_code_facts :
     Gen.CertFacts.reorgSteps = ["insertReorgEvent", "notifySubscriber", "removeTrackedBlockRange", "removeRange"] := by decide
 
+/-! ### F5 — the statement at full strength (any interleaving of detector and drivers) is FALSE of the code -/
+
+/-- on a tracked list sorted by number the two halves, run back to back, are the sequential pass -/
+theorem detect_is_notify_then_finish (chain : List Nat) (fin : Nat) (to : Nat) :
+    ∀ (ts : List Blk) (s : Sub), (∀ x ∈ s.tracked, x.1 ≤ to) →
+      detectFinish (detectNotifyLoop chain fin to ts s).1 (detectNotifyLoop chain fin to ts s).2 = (detectLoop chain fin ts s).1 := by
+  intro ts
+  induction ts with
+  | nil => intro s _; rfl
+  | cons t rest ih =>
+    intro s hto
+    unfold detectNotifyLoop detectLoop
+    cases hc : canon chain t.1 with
+    | none => rfl
+    | some v =>
+      simp only
+      by_cases hv : v = t.2
+      · rw [if_pos hv, if_pos hv]
+        apply ih
+        intro x hx
+        split at hx
+        · exact hto x (List.mem_filter.mp hx).1
+        · exact hto x hx
+      · rw [if_neg hv, if_neg hv]
+        simp only [detectFinish]
+        congr 1
+        apply List.filter_congr
+        intro x hx
+        have := hto x hx
+        simp only [decide_eq_decide]
+        omega
+
+/-- **F5 on the model**: blocks 1..3 processed and tracked; blocks 2.. are replaced; the detector notifies, the driver
+    rewinds and — before the detector removes the old range — processes and tracks block 2 of the new fork; the removal then
+    wipes that entry. Result: block 2 (version 21) is stored, not final, and NOT tracked (`C06_tracked_or_final` fails);
+    when the chain replaces it once more, a full sequential detection pass sees nothing and the subscriber keeps the
+    replaced block (`C06_detected` fails). -/
+theorem C06_race_false :
+    let chain0 := [10, 20, 30]
+    let s0 := stepN chain0 0 3 {}                       -- store = tracked = [(1,10),(2,20),(3,30)]
+    let chain1 := [10, 21, 31]                           -- reorg at block 2, new fork
+    let n := detectNotify chain1 0 s0                    -- notified, driver rewound; range (2,3) not yet removed
+    let s1 := stepN chain1 0 1 n.1                       -- the resumed driver handles block 2 of the new fork
+    let s2 := detectFinish s1 n.2                        -- now the detector removes [2,3]
+    let chain2 := [10, 22]                               -- block 2 is replaced once more
+    let s3 := (detectSub chain2 0 s2).1                  -- a complete detection pass
+    s2.store = [(1, 10), (2, 21)] ∧ s2.tracked = [(1, 10)] ∧
+    (detectSub chain2 0 s2).2 = .none ∧ (2, 21) ∈ s3.store ∧ canon chain2 2 = some 22 := by
+  decide
+
+/-- the same schedule with the two halves back to back (what the sequential theorems assume) keeps the entry -/
+example :
+    let s0 := stepN [10, 20, 30] 0 3 {}
+    let s1 := stepN [10, 21, 31] 0 1 (detectSub [10, 21, 31] 0 s0).1
+    s1.tracked = [(1, 10), (2, 21)] := by decide
+
+
+theorem le_lastNum_of_sorted : ∀ (l : List Blk), l.Pairwise (fun x y => x.1 < y.1) → ∀ x ∈ l, x.1 ≤ lastNum l := by
+  intro l
+  induction l with
+  | nil => intro _ x hx; simp at hx
+  | cons a rest ih =>
+    intro hs x hx
+    have hs' := List.pairwise_cons.mp hs
+    cases hr : rest with
+    | nil =>
+      subst hr
+      simp at hx; subst hx
+      simp [lastNum]
+    | cons b rest' =>
+      have hl : lastNum (a :: rest) = lastNum rest := by
+        unfold lastNum; rw [hr]; simp [List.getLast?_cons_cons]
+      rw [← hr, hl]
+      rcases List.mem_cons.mp hx with h | h
+      · subst h
+        have hb : b ∈ rest := by rw [hr]; simp
+        have := hs'.1 b hb
+        have := ih hs'.2 b hb
+        omega
+      · exact ih hs'.2 x h
+
+/-- **refinement**: in every state the sequential theorems speak about, the sequential detection pass is exactly
+    "notify, then remove the range" with nothing in between -/
+theorem detectSub_is_notify_then_finish (chain : List Nat) (fin : Nat) (s : Sub) (hi : SubInv chain fin s) :
+    detectFinish (detectNotify chain fin s).1 (detectNotify chain fin s).2 = (detectSub chain fin s).1 :=
+  detect_is_notify_then_finish chain fin (lastNum s.tracked) s.tracked s (le_lastNum_of_sorted _ hi.sortedT)
+
+
 end Aggkit.ReorgSync
